@@ -16,7 +16,7 @@ CONSTANT Deep       \* thorough tier: more base documents
 QuickBases ==
   [b1 |-> <<"info", "srv", "tag1", "tag2", "t1", "t3", "e1", "urlAI", "tagged", "rpc">>,
    b2 |-> <<"t1", "t2", "urlA", "getB", "mac", "useM", "bodyT">>,
-   b3 |-> <<"tag1", "tag2", "urlT", "tagrep", "t1", "e1">>]
+   b3 |-> <<"tag1", "tag2", "urlT", "tagrep", "t1", "e1", "urlTT", "respB">>]
 DeepBases ==
   [b4 |-> <<"infoV", "srv2", "t1", "reqT", "tAny", "e1", "t4", "pathM">>,
    b5 |-> <<"tag1", "mac", "mac2", "tag2", "rpc", "e1", "enumQ">>,
@@ -34,7 +34,7 @@ F(kind, doc, cls, tok, where, app) == [kind |-> kind, doc |-> doc, cls |-> cls, 
 NP == {"JSIGHT", "Title", "Version", "SERVER", "BaseUrl", "MACRO", "PASTE", "TAG", "Tags", "Protocol", "Method", "OperationId"}
 AN == {"JSIGHT", "INFO", "Title", "Version", "Description", "BaseUrl", "URL", "Query", "Request", "Headers", "Path",
        "Protocol", "MACRO", "PASTE", "Tags", "OperationId", "Params", "Result"}
-DL == {"Title", "Version", "Description", "BaseUrl", "Query", "Headers", "OperationId", "Protocol", "Path"}
+DL == {"Title", "Version", "Description", "BaseUrl", "Query", "Headers", "OperationId", "Protocol", "Path", "Body"}
 
 BlockStart(bs, x) == 2 + Len(Concat(SubSeq(bs, 1, x - 1), 1))     \* token index of the first token of block x
 DupCls(k) == CASE k \in {"TYPE", "ENUM", "SERVER", "TAG", "MACRO"} -> "dupname"
